@@ -30,12 +30,19 @@ class VtOrd6(callbacks.Plugin):
     callBefore = tuple(getattr(_cfg(), 'before', {}).get('VtOrd6', ())) if _cfg() is not None else ()
     callAfter = list(getattr(_cfg(), 'after', {}).get('VtOrd6', ())) if _cfg() is not None else []
 
+    def callPrecedence(self, irc):
+        c = _cfg()
+        if c is not None and 'VtOrd6' in getattr(c, 'prec_raises', ()):
+            # (firewalled: the dispatcher then treats this plugin as one without constraints)
+            raise RuntimeError('vt_c20: callPrecedence of VtOrd6 raises, see http://example.org/caf%c3%a9%20%bar?x=%s')
+        return super().callPrecedence(irc)
+
     def die(self):
         c = _cfg()
         if c is not None:
             c.log.append(('die', 'VtOrd6'))
             if 'VtOrd6' in c.die_raises:
-                raise RuntimeError('vt_c20: die of VtOrd6 made to raise')
+                raise RuntimeError('vt_c20: die of VtOrd6 made to raise, see http://example.org/caf%c3%a9%20%bar?x=%s')
         super().die()
 
     def __call__(self, irc, msg):
@@ -43,6 +50,12 @@ class VtOrd6(callbacks.Plugin):
         if c is not None and msg.command == 'PRIVMSG' and msg.args[1].startswith('vtorder'):
             c.seen.append('VtOrd6')
         return super().__call__(irc, msg)
+
+    def vtsh3(self, irc, msg, args):
+        """takes no arguments
+
+        A command here; the plugin VtOrd7 has a helper method of the same name."""
+        irc.reply('VtOrd6 shared g%d' % self.vt_serial)
 
     def ord6(self, irc, msg, args):
         """takes no arguments
